@@ -1,14 +1,12 @@
 #!/bin/sh
 # Re-runs every kept seeded change against the current checks (quick tier, property's own check) and refreshes seeded/*/meta.json + SUMMARY.md.
-# usage: tools/seedregress.sh [seed-name ...]      (default: all)
+# usage: tools/seedregress.sh [seed-name ...]      (default: all; JOBS=n runs n seeds at a time, default 6)
 cd "$(dirname "$0")/.."
 names="$@"; [ -z "$names" ] && names=$(ls seeded | grep -v SUMMARY)
+log=$(mktemp /dev/shm/seedregress.XXXXXX)
+echo $names | tr ' ' '\n' | xargs -P "${JOBS:-6}" -I{} sh -c 'n={}; pid=${n%-*}; out=$(/venv/bin/python tools/seedcheck.py seeded/$n $pid $n --skip-pytest --skip-baseline 2>&1 | grep -E "^check|DOES NOT APPLY" | head -1); echo "$n: $out" | cut -c1-200' | tee "$log"
 fail=0
-for n in $names; do
-  pid=${n%-*}
-  out=$(/venv/bin/python tools/seedcheck.py seeded/$n $pid $n --skip-pytest --skip-baseline 2>&1 | grep -E "^check" | head -1)
-  echo "$n: $out" | cut -c1-200
-  echo "$out" | grep -q "exit 1" || fail=1
-done
+grep -v "exit 1" "$log" | grep -q . && fail=1
+rm -f "$log"
 /venv/bin/python tools/seedsummary.py > /dev/null
 exit $fail
